@@ -102,7 +102,7 @@ def cases(seed, tier, shard, nshards):
         prov, cons = r.choice([['manual', 'guide'], ['userguide', 'guide'], ['aa', 'a'], ['a', 'aa'], ['part1', 'mypart1'], ['x.y', 'y'], ['doc', 'doc2']])
         n = r.randint(1, 4)
         labs = ['%s:%s%d' % (r.choice(['sec', 'ch']), r.choice('abx'), k) for k in range(n)]
-        yield {'kind': 'compile', 'provider': prov, 'consumer': cons, 'labels': labs, 'renderer': r.choice(['HTML5', 'XHTML']), 'shared': r.random() < 0.3}
+        yield {'kind': 'compile', 'provider': prov, 'consumer': cons, 'labels': labs, 'renderer': r.choice(['HTML5', 'XHTML', 'Text', 'ManPage']), 'shared': r.random() < 0.3}
     for i in common.sharded(b['n_seq'], shard, nshards):
         r = common.rng_for(seed, PROP, i, 'seq')
         ops = []
